@@ -73,7 +73,26 @@ def main():
                 "What was strengthened after a miss is listed in DESIGN.md section 11.\n\n"
                 "| id | change | reported at first evaluation | reported now | by its own property's check |\n|---|---|---|---|---|\n")
         f.write("\n".join(srows) + "\n")
-    print(len(rows), "natural,", len(srows), "seeded")
+    nrows = []
+    for d in sorted(glob.glob(os.path.join(VERIF, "selftest", "neutral", "N*"))):
+        name = os.path.basename(d)
+        r = load(os.path.join(src, "neutral", name + ".json"))
+        notes = open(os.path.join(d, "notes.md")).read() if os.path.exists(os.path.join(d, "notes.md")) else ""
+        first = next((ln.strip("# ").strip() for ln in notes.splitlines() if ln.strip()), "")
+        if r is None:
+            nrows.append(f"| {name} | {first[:110]} | not evaluated | |")
+            continue
+        alarms = {c: v["clauses"] for c, v in r.get("checks", {}).items() if v["exit"] != 0}
+        nrows.append(f"| {name} | {first[:110]} | {r.get('suite')} | {'none' if not alarms else json.dumps(alarms)} |")
+    with open(os.path.join(VERIF, "selftest", "NEUTRAL.md"), "w") as f:
+        f.write("# Behaviour-preserving changes: the checks must stay silent\n\n"
+                "Sixteen refactorings written by independent sub-agents that were given all 20 property texts and asked to change\n"
+                "implementation details a careless checker might depend on (messages, exception classes where only 'raises' is required,\n"
+                "validation order, order among equal sort keys, vectorisation, private attributes, shared implementations) while keeping\n"
+                f"every property true. Evaluated with /verif commit {commit}: all 20 quick checks against a scratch copy with the patch.\n\n"
+                "| id | change | suite | alarms (exit != 0) |\n|---|---|---|---|\n")
+        f.write("\n".join(nrows) + "\n")
+    print(len(rows), "natural,", len(srows), "seeded,", len(nrows), "neutral")
 
 
 if __name__ == "__main__":
